@@ -221,6 +221,19 @@ def edge_templates():
             tail.append([("set", "l", opq(l)), ("set", "c", ("mut", None, r)), ("assign", "add", V("c"), V("l")), ("pre", "deref", V("c"))])
             tail.append([("set", "l", opq(l)), ("set", "r", opq(r)), ("fndecl", "cat", [("p", arr(ANY)), ("q", arr(ANY))], arr(ANY), [("return", ("bin", "add", V("p"), V("q")))]),
                          ("call", V("cat"), [V("l"), V("r")])])
+    # type arms / if-set binders that ask for a struct type RELATED to the scrutinee's by width or depth subtyping (fewer
+    # fields, a wider field type), next to arms of another result type: the arm that runs must be part of the static type
+    SA, SAB, SAW = ("struct", (("a", INT),)), ("struct", (("a", INT), ("b", FLOAT))), ("struct", (("a", multi(INT, FLOAT)),))
+    sab = ("struct", [("a", I(1)), ("b", F_(2.5))])
+    for sty, sval in ((SAB, sab), (multi(SAB, STR), sab), (SA, ("struct", [("a", I(1))])), (multi(SAB, INT), sab)):
+        ids = ("fndecl", "ids", [("v", sty)], sty, [("return", V("v"))])
+        for aty in (SA, SAW, SAB):
+            arm = ("ty", "x", aty, ("block", [("facc", V("x"), "a")]))
+            tail.append([ids, ("set", "s", ("call", V("ids"), [sval])), ("set", "r", ("match", V("s"), [arm, ("other", ("block", [S_("no")]))])), V("r")])
+            tail.append([ids, ("set", "s", ("call", V("ids"), [sval])), ("set", "r", ("match", V("s"), [("val", [sval], ("block", [S_("v")])), arm, ("other", ("block", [("unit",)]))])), V("r")])
+            tail.append([ids, ("set", "s", ("call", V("ids"), [sval])), ("set", "r", ("ifset", "x", aty, V("s"), ("block", [("facc", V("x"), "a")]), ("block", [S_("no")]))), V("r")])
+            tail.append([("fndecl", "g", [("s", sty)], ANY, [("return", ("match", V("s"), [arm, ("other", ("block", [S_("no")]))]))]), ("call", V("g"), [sval])])
+            tail.append([("set", "s", sval), ("set", "r", ("match", V("s"), [arm, ("other", ("block", [S_("no")]))])), V("r")])
     mon = out[MONITOR_ONLY:]
     return out[:MONITOR_ONLY] + tail, mon
 
